@@ -14,6 +14,14 @@ import (
 	"golang.org/x/tools/go/ssa"
 )
 
+// qhyp is a quantified hypothesis kept for re-instantiation when new index terms appear.
+type qhyp struct {
+	env    *Env
+	x      *Expr
+	guard  string
+	origin string
+}
+
 type Assume struct {
 	Guard  string
 	Fact   string
@@ -42,6 +50,7 @@ type Obligation struct {
 	SmtSize int
 	Region  string // known-finding carve-out applied
 
+	Syntactic  bool
 	env        *Env
 	rt         *replayTemplate
 	valueKeys  []string
@@ -68,6 +77,7 @@ type Site struct {
 type BState struct {
 	reach string
 	heap  *Heap
+	ac    string // allocation counter: every object existing at this point has a smaller id
 }
 
 type FnTrans struct {
@@ -112,6 +122,21 @@ type FnTrans struct {
 	copyFacts []copyFact
 	curState *BState
 	curEnv   *Env
+	idxCands []Val
+	symAllocs []string
+	reinst   []func()
+	lastReinst int
+	frames   []frameFact
+	qhyps    []qhyp
+	allocs   []*ssa.Alloc
+	escCache map[*ssa.Alloc]bool
+	curLoopBlocks map[*ssa.BasicBlock]bool
+	stableVals []Val
+	stableTypes []types.Type
+	autoInvs map[*ssa.BasicBlock]func(string, int) string
+	autoPhis map[*ssa.BasicBlock][]*ssa.Phi
+	localTypes map[string]types.Type
+	ghostLocals map[string]Val
 }
 
 func (tr *FnTrans) note(format string, a ...interface{}) {
@@ -126,6 +151,7 @@ func (tr *FnTrans) assume(guard, fact, origin string) {
 }
 
 func (tr *FnTrans) oblige(kind, clause, guard, goal string, pos token.Pos) *Obligation {
+	tr.reinstantiate() // the goal may have introduced skolem constants: instantiate hypotheses with them
 	tr.oblCnt[kind]++
 	name := fmt.Sprintf("%s/%s#%d", tr.name, kind, tr.oblCnt[kind])
 	o := &Obligation{Name: name, Kind: kind, Fn: tr.name, Props: tr.props, Guard: guard, Goal: goal,
@@ -295,10 +321,20 @@ func (tr *FnTrans) introduce(prefix string, t types.Type, guard, origin string) 
 }
 
 // wf assumes the runtime invariants of a value of type t.
+func (tr *FnTrans) curAC() string {
+	if tr.curState != nil && tr.curState.ac != "" {
+		return tr.curState.ac
+	}
+	return "ac0"
+}
+
 func (tr *FnTrans) wf(term string, t types.Type, guard, origin string) {
 	switch u := t.Underlying().(type) {
+	case *types.Pointer, *types.Map, *types.Chan:
+		tr.assume(guard, fmt.Sprintf("(< (rootloc %s) %s)", term, tr.curAC()), "existing object "+origin)
 	case *types.Slice:
 		tr.assume(guard, fmt.Sprintf("(wfslice %s)", term), "wf "+origin)
+		tr.assume(guard, fmt.Sprintf("(< (rootloc (sbase %s)) %s)", term, tr.curAC()), "existing object "+origin)
 	case *types.Basic:
 		if u.Info()&types.IsString != 0 {
 			tr.assume(guard, fmt.Sprintf("(wfstr %s)", term), "wf "+origin)
@@ -325,7 +361,7 @@ func needsWF(t types.Type, depth int) bool {
 		return false
 	}
 	switch u := t.Underlying().(type) {
-	case *types.Slice, *types.Interface:
+	case *types.Slice, *types.Interface, *types.Pointer, *types.Map, *types.Chan:
 		return true
 	case *types.Basic:
 		return u.Info()&(types.IsString|types.IsInteger) != 0
@@ -514,6 +550,7 @@ func (tr *FnTrans) conv(x Val, to types.Type) string {
 		tr.smt.declareFun("str2bytes_base", []string{"Str", "Int"}, "Ref")
 		tr.allocID++
 		b := fmt.Sprintf("(str2bytes_base %s %d)", x.T, tr.allocID)
+		tr.assume("true", fmt.Sprintf("(= (rootloc %s) (- 2))", b), "string bytes live outside the object heap")
 		n := tr.smt.define("s2b", "Slice", fmt.Sprintf("(mkslice %s %s (strlen %s) (strlen %s))", b, tr.lit64(0), x.T, x.T))
 		return n
 	case fs == "Slice" && ts == "Str":
